@@ -167,7 +167,7 @@ impl Iterator for CatchGradualDifficulty {
 
 impl ExactSizeIterator for CatchGradualDifficulty {
     fn len(&self) -> usize {
-        self.diff_objects.len() + 1 - self.idx
+        self.diff_objects.len() + usize::from(!self.count.is_empty()) - self.idx
     }
 }
 
